@@ -23,6 +23,9 @@ def get_prop(pid):
     if pid == "C15":
         import p_adapters
         return p_adapters.AdapterProp()
+    if pid == "C08":
+        import p_reset
+        return p_reset.C08Prop()
     raise SystemExit(f"unknown property {pid}")
 
 
